@@ -11,7 +11,7 @@ type propInfo struct {
 var propTable = map[string]propInfo{
 	"C07": {"proof", "Literal handling as contracts on the real functions: encodeUTF8 is proved (64-bit bit-vector semantics, loop-free, all inputs) to produce, for every Unicode scalar value, exactly the well-formed UTF-8 sequence that an RFC 3629 decoder maps back to it, and is only ever called with scalar values (precondition proved at both call sites); hexDigitValue/isHexDigit/mustStayEscaped are exact; readString is specified per scanned element (per-iteration write sequences over the bytes after the cursor): ordinary bytes are copied verbatim with the cursor advancing by one, a double quote gets a backslash (the printer re-quotes with double quotes), unknown escapes (incl. line continuations and legacy octal) are kept verbatim, \\xHH and \\uHHHH are decoded only when the value can be written raw (not a quote, backslash, CR, LF, surrogate, decimal digit, and for \\xHH below 0x80) and otherwise kept verbatim, invalid \\x/\\u sequences are kept verbatim; readRawString copies bytes verbatim, keeps a backslash together with the character after it and decodes only the escaped backtick, which MultiStringLiteral.WriteTo escapes again; both scanners stop only at their delimiter or at the end of the input; number and identifier tokens are verbatim source slices (C10 [slice]); the parser stores literal tokens verbatim ([node]) and the literal printers write Token.Literal / the stored value unchanged between the delimiters ([syntax]); pretty-mode post-processing trims only spaces at line ends.", []string{
 		"the end-to-end statement 'the emitted literal denotes the same ECMAScript string value' is the composition of the per-element clauses (Meta M7, an induction over the literal's elements); a product-automaton proof over the whole literal is not mechanised",
-		"digits decoded from escapes stay escaped, so no decoded character can join a kept \\0/octal escape; both scanners are proved to end only at their delimiter or at the end of input (NUL is an ordinary byte); readRawString keeps a backslash together with the character after it. Known residual: braced \\u{...} escapes are covered only by the scalar-value precondition of encodeUTF8 and the frame/safety obligations, not by a write-sequence clause; trailing spaces inside multi-line backtick strings are trimmed in pretty mode",
+		"digits decoded from escapes stay escaped, so no decoded character can join a kept \\0/octal escape; both scanners are proved to end only at their delimiter or at the end of input (NUL is an ordinary byte); readRawString keeps a backslash together with the character after it. braced \\u{...} escapes: the collected digits are exactly the source bytes (none skipped) and the write-back of kept escapes is byte for byte; the value computed from the digits is covered by the scalar-value precondition of encodeUTF8 only",
 		"strconv.ParseInt/ParseFloat acceptance of numeric literals is a trusted library contract; JavaScript's numeric tokenisation agrees for literals starting with a digit",
 	}},
 	"C01": {"proof", "The syntactic sufficient condition for behaviour preservation is stated as contracts and discharged: (a) every parse function stores the token it consumes verbatim in the node it builds ([node] clauses: Token == the current token at entry, Operator/Value == its literal, children == the results of the sub-parses, compound assignment operator '+'/'-' from the token type); (b) every printer re-emits its node's tokens and children in source order -- the [syntax] clause of each of the 29 WriteTo methods fixes the exact sequence of code-writer calls (leading comments, mapping, token text, children, brackets, semicolon), loops by per-iteration trace contracts; (c) Compile prints the program exactly once through a fresh writer and returns the writer's text unprocessed in compact mode.", []string{
@@ -47,7 +47,7 @@ var propTable = map[string]propInfo{
 		"functions stored in the parser's function-typed fields obey the slot contracts: checked at every store inside the package; plugin interceptors are assumed pass-through and plugin createExpr callbacks are assumed to touch parser state only through the thunk they are given (hypotheses of C04/C05)",
 	}},
 	"C11": {"proof", "Safety obligations (nil dereference, index/slice bounds, nil-map store, failed type assertion, explicit panic, nil interface receiver) are generated without annotation for every instruction of every function of packages lexer, parser, ast, compiler and debug and discharged under the proved invariants (lexInv, parserInv, cwInv) -- for the printers under their one-level well-formedness hypotheses [wf]. The error contract is stated on the real functions: ParseProgram returns a non-nil program, err != nil iff len(errors) > 0, and no statement list (program or block) contains a nil or typed-nil entry (the engine's (tag,payload) interface model distinguishes typed nil from nil); the error list only grows; every statement/expression/prefix/infix parse step returns nil only after recording an error (slot contracts, incl. interceptor wrappers and registered operators); every error is recorded through AddErrorAtToken, whose precondition demands a token that came from Lexer.NextToken (ghost predicate LexTok), so every error range is a token range; and every node-building parse function proves the [wf] clause: if it recorded no error, the node it returns has all mandatory children -- exactly the hypothesis under which that node's printer is proved not to panic.", []string{
-		"termination: every loop of the parser has a proved variant over parserMeasure (bytes behind the lexer cursor plus non-EOF look-ahead tokens; NextToken decreases it while the current token is not EOF, nothing increases it, the end of input is sticky) -- ParseProgram, ParseBlockStatement, parameter/argument/property lists, and the precedence-climbing loop (after the fix that stops at a token without an infix function; hypothesis: no infix operator is registered on EOF); lexer loops see C10. Termination of the mutual recursion between parse functions (bounded by nesting depth) is not proved and not assumed",
+		"termination: every loop of the parser has a proved variant over parserMeasure (bytes behind the lexer cursor plus non-EOF look-ahead tokens; NextToken decreases it while the current token is not EOF, nothing increases it, the end of input is sticky), and the mutual recursion is ranked: every call between parse functions either goes down in rank or follows a strict decrease of the measure since the caller's entry (atcall [term]); hypotheses: no prefix and no infix operator is registered on EOF; interceptor wrappers (finite chains) and the operand thunks of registered operators are exempt (norank); lexer loops see C10",
 		"'no error => every node satisfies its printer's [wf] hypothesis => compiling never panics' composes the per-node [wf] clauses by induction over the tree (Meta M2); the per-node facts are mechanised on both sides",
 		"plugin hypotheses: interceptors are pass-through; createExpr callbacks return a node (never nil) and act only through the thunk they are handed",
 		"LexTok is a ghost predicate whose only introduction rule is the definitional postcondition of Lexer.NextToken",
